@@ -4,7 +4,7 @@
   actors/miner/src/{partition_state,expiration_queue,bitfield_queue}.rs, the Level-1 specification
   `BA.Sector.Spec`, and the model `BA.Sector.Alloc` of `State::allocate_sector_numbers`.
 -/
-import BA.Lemmas.Sector.Replace
+import BA.Lemmas.Sector.Refine2
 import BA.Model.Sector.Alloc
 
 namespace BA.Sector
@@ -59,14 +59,35 @@ theorem status_preimages (env : Env) (ops : List Op) (hw : ∀ op ∈ ops, OpWF 
     and recovering sectors faulty and leave faulty and terminated ones alone; a recovery declaration
     turns faulty sectors recovering; a proven recovery turns recovering sectors active; the first
     covering PoSt turns unproven sectors active; a missed PoSt turns every live sector faulty.
-    PARTIAL: terminate_sectors, pop_expired_sectors, reschedule_expirations, replace_sectors are not
-    covered (which sectors they affect is decided by the expiration queue). -/
+    PARTIAL: the queue-driven calls are in `status_refines_level1_queue_partial`; replace_sectors is
+    not covered. -/
 theorem status_refines_level1_partial (env : Env) (p p' : Partition) (op : Op) (r : Ret)
     (hw : TableWF env.tbl) (hs : SetInv p) (hop : OpWF op) (ha : TierA op)
     (h : stepE env p op = .ok (p', r)) :
     ∃ s', specStep p.abs op = some (.ok s') ∧
       ∀ n, Spec.statusOf p'.abs n = Spec.statusOf s' n :=
   refines_stepE hw hs hop ha h
+
+/-- **status_refines_level1_queue_partial.** The same for the calls whose effect is decided by the
+    expiration queue, on a partition satisfying the full invariant: `pop_expired_sectors` terminates
+    exactly the sectors scheduled at or before the epoch (Level-1 `popExpiredSectors`, which like the
+    code refuses while sectors are unproven or recovering), `terminate_sectors` terminates exactly the
+    given live sectors, `reschedule_expirations` changes no status.  With
+    `status_refines_level1_partial` this covers eleven of the twelve methods; PARTIAL: replace_sectors
+    (it changes the set of sector numbers) is not covered by the status refinement. -/
+theorem status_refines_level1_queue_partial (env : Env) (p : Partition) (hw : TableWF env.tbl)
+    (h : FullInv env.tbl p) :
+    (∀ u p' es, p.popExpiredSectors u = .ok (p', es) →
+      ∃ s', specStepQ p p.abs (.popExpiredSectors u) = some (.ok s') ∧
+        ∀ n, Spec.statusOf p'.abs n = Spec.statusOf s' n) ∧
+    (∀ ep sn p' ret rup, sn.Nodup → p.terminateSectors env.tbl env.qs ep sn = .ok (p', ret, rup) →
+      ∃ s', specStepQ p p.abs (.terminateSectors ep sn) = some (.ok s') ∧
+        ∀ n, Spec.statusOf p'.abs n = Spec.statusOf s' n) ∧
+    (∀ ne sn p' infos, p.rescheduleExpirationsP env.tbl env.qs ne sn = .ok (p', infos) →
+      ∃ s', specStepQ p p.abs (.rescheduleExpirations ne sn) = some (.ok s') ∧
+        ∀ n, Spec.statusOf p'.abs n = Spec.statusOf s' n) :=
+  ⟨fun _ _ _ hp => refines_pop h hp, fun _ _ _ _ _ hsn ht => refines_terminate hw h hsn ht,
+   fun _ _ _ _ hr => refines_reschedule hr⟩
 
 /-! ### memo = recomputed value (Level 2 refines Level 1 on the summaries) -/
 
